@@ -63,12 +63,12 @@ def check_violation(ctx, name, lines, v):
 
 def run(ctx):
     part_fn(ctx)
-    mods, stats = corpus.pick(ctx, "c07", 30 if ctx.quick else 277, 40 if ctx.quick else 800, 25 if ctx.quick else 400)
+    mods, stats = corpus.pick(ctx, "c07", 30 if ctx.quick else 277, 40 if ctx.quick else 800, 150 if ctx.quick else 1500)
     cases = [{"id": k, "op": "corpus.lint", "files": [{"name": n, "content": c}], "_k": 0, "_m": k} for k, (n, c) in enumerate(mods)]
     rng = ctx.rng("shift")
-    shifted = rng.sample(range(len(mods)), min(len(mods), 40 if ctx.quick else 400))
+    shifted = rng.sample(range(len(mods)), min(len(mods), 90 if ctx.quick else 900))
     for m in shifted:
-        for k in ([rng.choice([1, 3, 10, 100])] if ctx.quick else [1, 3, 10, 100]):
+        for k in ([1, rng.choice([3, 10, 100])] if ctx.quick else [1, 3, 10, 100]):
             n, c = mods[m]
             nl = "\r\n" if "\r\n" in c else "\n"
             cases.append({"id": len(cases), "op": "corpus.lint", "files": [{"name": n, "content": nl * k + c}], "_k": k, "_m": m})
